@@ -650,6 +650,7 @@ def oracle(case, obs):
     if op == 'allocated':
         results, quota, _ = ref_allocated(prof, case['n'], case['quota'], tie_orders=True)
         canon = set()
+        tie_places = {}
         for el, kind in results:
             ws, tie = [], None
             for e in el:
@@ -657,9 +658,12 @@ def oracle(case, obs):
                     ws += list(e[1:])
                 elif isinstance(e, tuple) and e[0] == 'tie':
                     tie = tuple(sorted(e[1]))
+                    places = e[2]
                 else:
                     ws.append(e)
             canon.add((tuple(sorted(ws)), tie))
+            if tie is not None:
+                tie_places[(tuple(sorted(ws)), tie)] = places
         if _is_err(obs):
             return [('allocated_crash_' + obs['err'], f'reference outcome(s) {sorted(canon, key=str)}')]
         out = []
@@ -668,6 +672,8 @@ def oracle(case, obs):
                  for ws, tie in canon)
         if not ok:
             out.append(('allocated_outcome', f'expected one of {sorted(canon, key=str)}, got {obs}'))
+        elif ties and not any(list(ws) == cands and tie is not None and tie_places[(ws, tie)] == len(ties) for ws, tie in canon):
+            out.append(('allocated_tie_places', f'the tie must be listed once per seat it contests: {obs}'))
         if len(canon) > 1:
             out.append(('allocated_tie_order', f'outcome depends on the processing order of tied winners: {sorted(canon, key=str)}'))
         return out
@@ -1063,7 +1069,7 @@ REQUIRED = ['pav_eq_spec', 'pavSpec_some_iff', 'pav_returns_iff_unique_maximiser
             'score_aggregate_eq_spec', 'mj_median_is_lower_median', 'score_mean_exact', 'score_eq_spec',
             'score_truncation_eq_spec', 'score_unscored_eq_spec', 'score_min_count_eq_spec',
             'mj_elects_highest_medians', 'star_runoff_pairwise', 'star_eq_schulze_of_runoff',
-            'allocated_spends_one_quota', 'allocated_fraction_out_spec',
+            'allocated_spends_one_quota', 'allocated_fraction_out_spec', 'allocated_tie_places_fixed',
             'star_members_spec', 'star_member_matrix', 'star_two_finalists',
             'star_single_runoff_fixed', 'star_boundary_tie_fixed', 'star_member_dropped_fixed',
             'mj_default_tiebreak_witness', 'mj_default_tiebreak_scale_witness', 'allocated_empty_ballot_witness',
